@@ -120,9 +120,9 @@ def collect(prop: str, rules: list, tier: str, idx: Index):
 
 def run_property(prop: str, rules: list[Callable[[Ctx], None]], tier: str, level: str = 'other',
                  idx: Optional[Index] = None, write_evidence: bool = True, quiet: bool = False,
-                 extra: Optional[Callable[[Ctx], dict]] = None) -> int:
+                 extra: Optional[Callable[[Ctx], dict]] = None, t0: Optional[float] = None) -> int:
     """Run the rules of one property; print report; write evidence; return exit code."""
-    t0 = time.time()
+    t0 = t0 or time.time()
     seed = int(os.environ.get('VERIF_SEED', '0') or 0)
     out = (lambda *a: None) if quiet else (lambda *a: print(*a, flush=True))
     try:
